@@ -131,6 +131,7 @@ func (l *Loop) pollAction(n *HotNode) Action {
 			// Poll returned or panicked: the daemon process is gone
 			w.collectPanics(n)
 			w.Log.Add("poller of %s ended", n.Name)
+			n.PollerEnded++ // Poll() returned or panicked by itself: the daemon process exits
 			w.closeDeadNode(n)
 		}
 	}}
